@@ -61,6 +61,12 @@ Qed.
 Lemma parent_snoc : forall (p : path) c, parent (p ++ [c]) = p.
 Proof. intros. unfold parent. apply removelast_last. Qed.
 
+Lemma parent_neq : forall q : path, q <> [] -> parent q <> q.
+Proof.
+  intros q Hq. destruct (exists_last Hq) as (q' & a & E). subst q. rewrite parent_snoc. intro E.
+  apply (f_equal (@List.length comp)) in E. rewrite app_length in E. cbn in E. lia.
+Qed.
+
 (** ---------- the finite map ---------- *)
 Lemma get_del : forall f p q, get (del f p) q = if path_eqb q p then None else get f q.
 Proof.
@@ -158,9 +164,7 @@ Lemma remove_changes : forall f p g, remove f p = Ok g ->
 Proof.
   intros f p g H. unfold remove in H. destruct (res_nofollow f p) as [q|e] eqn:R; [|discriminate].
   destruct (get f q) as [i|] eqn:G; [|discriminate]. destruct (is_nil q) eqn:Nq; [discriminate|].
-  assert (Hnp : parent q <> q).
-  { destruct q as [|a q'] using rev_ind; [discriminate|]. rewrite parent_snoc. intro E.
-    apply (f_equal (@List.length comp)) in E. rewrite app_length in E. cbn in E. lia. }
+  assert (Hnp : parent q <> q) by (apply parent_neq; intro E; subst q; discriminate).
   assert (Hg : forall g', g' = touch_dir (del f q) (parent q) -> get g' q = None).
   { intros g' ->. destruct (get_touch_dir (del f q) (parent q) q) as [H1 _].
     rewrite H1 by (intro E; apply Hnp; symmetry; exact E). rewrite get_del, path_eqb_refl. reflexivity. }
@@ -169,9 +173,9 @@ Proof.
   - destruct (has_children f q) eqn:Hc; [discriminate|]. inversion H; subst.
     split; [apply changes_del_touch|]. split; [apply Hg; reflexivity|]. intros _. reflexivity.
   - inversion H; subst. split; [apply changes_del_touch|]. split; [apply Hg; reflexivity|].
-    cbn. discriminate.
+    rewrite G. cbn. discriminate.
   - inversion H; subst. split; [apply changes_del_touch|]. split; [apply Hg; reflexivity|].
-    cbn. discriminate.
+    rewrite G. cbn. discriminate.
 Qed.
 
 (** chmod and utimens keep the kind; they change exactly the resolved object *)
@@ -179,8 +183,19 @@ Definition meta_only (q : path) (f g : fs) : Prop :=
   (forall p, p <> q -> get g p = get f p) /\
   match get f q, get g q with
   | Some x, Some y => i_kind x = i_kind y
+  | None, None => True
   | _, _ => False
   end.
+
+Lemma meta_only_refl : forall q f, meta_only q f f.
+Proof. intros q f. split; [reflexivity|]. destruct (get f q); auto. Qed.
+
+Lemma meta_only_trans : forall q f g h, meta_only q f g -> meta_only q g h -> meta_only q f h.
+Proof.
+  intros q f g h [A1 A2] [B1 B2]. split.
+  - intros p Hp. rewrite (B1 p Hp). apply A1. exact Hp.
+  - destruct (get f q), (get g q), (get h q); try contradiction; auto. congruence.
+Qed.
 
 Lemma chmod_changes : forall f p mode g, chmod f p mode = Ok g ->
   exists q, res_follow f p = Ok q /\ meta_only q f g.
@@ -216,6 +231,9 @@ Fixpoint real_from (f : fs) (cur : path) (todo : list comp) : Prop :=
   end.
 Definition real (f : fs) (p : path) : Prop := real_from f [] p.
 
+Lemma real_from_dir : forall f cur todo, real_from f cur todo -> is_dir (get f cur) = true.
+Proof. intros f cur [|c r] H; cbn [real_from] in H; tauto. Qed.
+
 Lemma normal_tests : forall c, normal c -> is_nil c || bytes_eqb c DOT = false /\ bytes_eqb c DOTDOT = false.
 Proof.
   intros c (H1 & H2 & H3). split.
@@ -238,7 +256,7 @@ Lemma resolve_real : forall pre n links f cur c follow q,
 Proof.
   induction pre as [|d pre IH]; intros n links f cur c follow q Hr Hc Hl H.
   - destruct n as [|n]; [discriminate|]. cbn [app resolve] in H.
-    destruct Hr as [Hd _]. apply is_dir_kind in Hd. destruct Hd as (ci & Hci & Hk). rewrite Hci, Hk in H.
+    pose proof (real_from_dir _ _ _ Hr) as Hd. apply is_dir_kind in Hd. destruct Hd as (ci & Hci & Hk). rewrite Hci, Hk in H.
     destruct (normal_tests c Hc) as [T1 T2]. rewrite T1, T2 in H.
     destruct (NAME_MAX <? Z.of_nat (List.length c)); [discriminate|].
     cbn [app] in Hl.
@@ -254,7 +272,7 @@ Proof.
     destruct Hr as [Hd [Hnd Hr']]. apply is_dir_kind in Hd. destruct Hd as (ci & Hci & Hk). rewrite Hci, Hk in H.
     destruct (normal_tests d Hnd) as [T1 T2]. rewrite T1, T2 in H.
     destruct (NAME_MAX <? Z.of_nat (List.length d)); [discriminate|].
-    pose proof Hr' as Hr''. destruct Hr'' as [Hd' _]. apply is_dir_kind in Hd'. destruct Hd' as (di & Hdi & Hdk).
+    pose proof (real_from_dir _ _ _ Hr') as Hd'. apply is_dir_kind in Hd'. destruct Hd' as (di & Hdi & Hdk).
     rewrite Hdi in H. destruct di as [k m mt]. cbn [i_kind] in Hdk. subst k.
     assert (Hnn : is_nil (pre ++ [c]) = false) by (destruct pre; reflexivity).
     rewrite Hnn in H.
@@ -263,21 +281,458 @@ Proof.
     + intros Hf i t. rewrite <- app_assoc. cbn [app]. apply Hl. exact Hf.
 Qed.
 
+Lemma real_from_snoc : forall f p cur c,
+  real_from f cur (p ++ [c]) <->
+  real_from f cur p /\ normal c /\ is_dir (get f (cur ++ p ++ [c])) = true.
+Proof.
+  intros f p. induction p as [|d p IH]; intros cur c.
+  - cbn [app real_from]. tauto.
+  - cbn [app real_from]. rewrite IH. rewrite <- app_assoc. cbn [app]. tauto.
+Qed.
+
 (** resolving the path of a real directory (either way) gives that path *)
 Lemma resolve_real_dir : forall p n links f follow q, real f p -> p <> [] ->
   resolve n links f [] p follow = Ok q -> q = p.
 Proof.
   intros p n links f follow q Hr Hne H.
-  destruct p as [|c p'] using rev_ind; [contradiction|]. clear IHp'.
-  assert (Hsplit : real_from f [] p' /\ normal c /\ is_dir (get f (p' ++ [c])) = true).
-  { clear H Hne. unfold real in Hr. revert Hr. generalize (@nil comp) as cur.
-    induction p' as [|d p' IH]; intros cur Hr.
-    - cbn [app real_from] in *. destruct Hr as [H1 [H2 [H3 _]]]. split; [split; [exact H1|exact I]|]. split; [exact H2|exact H3].
-    - cbn [app real_from] in Hr. destruct Hr as [H1 [H2 H3]]. specialize (IH _ H3).
-      destruct IH as [I1 [I2 I3]]. split; [cbn [real_from]; split; [exact H1|split; [exact H2|exact I1]]|].
-      split; [exact I2|]. rewrite <- app_assoc in I3. exact I3. }
-  destruct Hsplit as [H1 [H2 H3]].
+  destruct (exists_last Hne) as (p' & c & E). subst p.
+  unfold real in Hr. apply real_from_snoc in Hr. destruct Hr as [H1 [H2 H3]]. cbn [app] in H3.
   apply (resolve_real p' n links f [] c follow q H1 H2) in H; [exact H|].
   intros _ i t Hi Hk. cbn [app] in Hi. apply is_dir_kind in H3. destruct H3 as (i' & Hi' & Hk').
   rewrite Hi in Hi'. inversion Hi'; subst. rewrite Hk in Hk'. discriminate.
+Qed.
+
+(** ---------- the defect (flag on) ---------- *)
+Definition w_dir (m t : Z) : inode := {| i_kind := KDir; i_mode := m; i_mtime := Some t |}.
+Definition w_fs : fs :=
+  [ ([], w_dir 493 0); ([bs "B"], w_dir 493 1); ([bs "B"; bs "out"], w_dir 493 2);
+    ([bs "B"; bs "out"; bs "d"], w_dir 493 3) ].
+Definition w_t : path := [bs "B"; bs "t"].
+Definition w_entries : list entry :=
+  [ {| e_name := bs "r"; e_type := TDir; e_mode := 493; e_mtime := Some 7; e_link := []; e_content := 0 |};
+    {| e_name := bs "r/d"; e_type := TDir; e_mode := 448; e_mtime := Some 7; e_link := []; e_content := 0 |};
+    {| e_name := bs "r/d"; e_type := TSym; e_mode := 511; e_mtime := Some 7; e_link := bs "../out/d"; e_content := 0 |} ].
+
+Theorem deferred_refuted :
+  snd (extract true w_fs w_t w_entries) = false /\
+  get (fst (extract true w_fs w_t w_entries)) [bs "B"; bs "out"; bs "d"] = Some (w_dir 448 3) /\
+  confined w_t w_fs (fst (extract true w_fs w_t w_entries)) = false /\
+  confined w_t w_fs (fst (extract false w_fs w_t w_entries)) = true.
+Proof. vm_compute. repeat split; reflexivity. Qed.
+
+(** ---------- agreement outside the target ---------- *)
+(** [g] agrees with [f] on everything that is not at or below [t]; the directory
+    holding [t] keeps its kind and mode *)
+Definition agree (t : path) (f g : fs) : Prop :=
+  (forall p, under t p = false -> p <> parent t -> get g p = get f p) /\
+  same_km (get f (parent t)) (get g (parent t)).
+
+Lemma agree_refl : forall t f, agree t f f.
+Proof. intros. split; [reflexivity|apply same_km_refl]. Qed.
+
+Lemma agree_trans : forall t f g h, agree t f g -> agree t g h -> agree t f h.
+Proof.
+  intros t f g h [A1 A2] [B1 B2]. split.
+  - intros p Hu Hp. rewrite (B1 p Hu Hp). apply A1; assumption.
+  - eapply same_km_trans; eassumption.
+Qed.
+
+Lemma under_false_neq : forall t q p, under t q = true -> under t p = false -> p <> q.
+Proof. intros t q p Hq Hp E. subst. congruence. Qed.
+
+Lemma parent_under : forall t s c, parent (t ++ s ++ [c]) = t ++ s.
+Proof. intros. rewrite app_assoc. apply parent_snoc. Qed.
+
+Lemma parent_length : forall t : path, t <> [] -> S (List.length (parent t)) = List.length t.
+Proof.
+  intros t Ht. destruct (exists_last Ht) as (t' & a & E). subst t. rewrite parent_snoc, app_length. cbn. lia.
+Qed.
+
+Lemma changes_agree : forall t q f g, t <> [] -> under t q = true -> changes_at q f g -> agree t f g.
+Proof.
+  intros t q f g Ht Hq Hc. apply under_spec in Hq. destruct Hq as [s Hs]. subst q. split.
+  - intros p Hu Hp.
+    assert (Hne : p <> t ++ s) by (intro E; subst p; rewrite under_app in Hu; discriminate).
+    destruct (Hc p Hne) as [H1 _]. apply H1. intro E.
+    destruct s as [|c s'] using rev_ind.
+    + rewrite app_nil_r in E. contradiction.
+    + rewrite parent_under in E. subst p. rewrite under_app in Hu. discriminate.
+  - assert (Hne : parent t <> t ++ s).
+    { intro E. apply (f_equal (@List.length comp)) in E. rewrite app_length in E.
+      pose proof (parent_length t Ht). lia. }
+    destruct (Hc (parent t) Hne) as [_ H2]. exact H2.
+Qed.
+
+Lemma meta_agree : forall t q f g, t <> [] -> under t q = true -> meta_only q f g -> agree t f g.
+Proof.
+  intros t q f g Ht Hq [Hm _]. split.
+  - intros p Hu _. apply Hm. eapply under_false_neq; eassumption.
+  - rewrite Hm; [apply same_km_refl|]. intro E. apply under_spec in Hq. destruct Hq as [s Hs]. subst q.
+    apply (f_equal (@List.length comp)) in E. rewrite app_length in E. pose proof (parent_length t Ht). lia.
+Qed.
+
+(** ---------- what survives an operation ---------- *)
+Lemma is_dir_km : forall a b, same_km a b -> is_dir a = true -> is_dir b = true.
+Proof.
+  intros [[k m mt]|] [[k' m' mt']|] H Hd; cbn in *; try contradiction; try discriminate.
+  destruct H as [H _]. subst k'. exact Hd.
+Qed.
+
+Lemma real_from_changes : forall q f g todo cur,
+  changes_at q f g -> under q (cur ++ todo) = false -> real_from f cur todo -> real_from g cur todo.
+Proof.
+  intros q f g todo. induction todo as [|c rest IH]; intros cur Hc Hu Hr.
+  - cbn [real_from] in *. split; [|exact I]. destruct Hr as [Hd _]. rewrite app_nil_r in Hu.
+    assert (Hne : cur <> q) by (intro E; subst; rewrite under_refl in Hu; discriminate).
+    destruct (Hc cur Hne) as [_ Hk]. eapply is_dir_km; eassumption.
+  - cbn [real_from] in *. destruct Hr as [Hd [Hn Hr]].
+    assert (Hne : cur <> q) by (intro E; subst; rewrite under_app in Hu; discriminate).
+    split; [|split; [exact Hn|]].
+    + destruct (Hc cur Hne) as [_ Hk]. eapply is_dir_km; eassumption.
+    + apply IH; [exact Hc| |exact Hr]. rewrite <- app_assoc. exact Hu.
+Qed.
+
+Lemma meta_km : forall q f g x, meta_only q f g -> is_dir (get f x) = true -> is_dir (get g x) = true.
+Proof.
+  intros q f g x [Hm1 Hm2] Hd. destruct (list_eq_dec (list_eq_dec Z.eq_dec) x q) as [E|E].
+  - subst x. apply is_dir_kind in Hd. destruct Hd as (i & Hi & Hki). rewrite Hi in Hm2.
+    destruct (get g q) as [[k m mt]|]; [|contradiction]. cbn in *. rewrite <- Hm2, Hki. reflexivity.
+  - rewrite (Hm1 x E). exact Hd.
+Qed.
+
+Lemma real_from_meta : forall q f g todo cur, meta_only q f g -> real_from f cur todo -> real_from g cur todo.
+Proof.
+  intros q f g todo. induction todo as [|c rest IH]; intros cur Hm Hr; cbn [real_from] in *.
+  - split; [|exact I]. destruct Hr as [Hd _]. eapply meta_km; eassumption.
+  - destruct Hr as [Hd [Hn Hr]]. split; [eapply meta_km; eassumption|]. split; [exact Hn|apply IH; assumption].
+Qed.
+
+Lemma exists_changes : forall q f g x, changes_at q f g -> x <> q -> get f x <> None -> get g x <> None.
+Proof.
+  intros q f g x Hc Hx Hf. destruct (Hc x Hx) as [_ Hk]. destruct (get f x); [|contradiction].
+  destruct (get g x); [discriminate|contradiction].
+Qed.
+
+Lemma exists_meta : forall q f g x, meta_only q f g -> get f x <> None -> get g x <> None.
+Proof.
+  intros q f g x [Hm1 Hm2] Hf. destruct (list_eq_dec (list_eq_dec Z.eq_dec) x q) as [E|E].
+  - subst. destruct (get f q); [|contradiction]. destruct (get g q); [discriminate|contradiction].
+  - rewrite (Hm1 x E). exact Hf.
+Qed.
+
+(** ---------- lexical = physical below a chain of real directories ---------- *)
+Lemma res_nofollow_lex : forall f p c q, real f p -> normal c ->
+  res_nofollow f (p ++ [c]) = Ok q -> q = p ++ [c].
+Proof.
+  intros f p c q Hr Hn H. unfold res_nofollow in H.
+  apply (resolve_real p _ _ f [] c false q Hr Hn) in H; [exact H|]. intro E. discriminate.
+Qed.
+
+Lemma res_follow_lex : forall f p c q, real f p -> normal c ->
+  (forall i t, get f (p ++ [c]) = Some i -> i_kind i <> KLink t) ->
+  res_follow f (p ++ [c]) = Ok q -> q = p ++ [c].
+Proof.
+  intros f p c q Hr Hn Hl H. unfold res_follow in H.
+  apply (resolve_real p _ _ f [] c true q Hr Hn) in H; [exact H|]. intros _. exact Hl.
+Qed.
+
+Lemma resolve_nil : forall n l f cur follow q, resolve n l f cur [] follow = Ok q -> q = cur.
+Proof. intros [|n] l f cur follow q H; cbn in H; [discriminate|]. inversion H. reflexivity. Qed.
+
+Lemma res_dir_lex : forall f p q follow, real f p ->
+  resolve STEPS MAXLINKS f [] p follow = Ok q -> q = p.
+Proof.
+  intros f p q follow Hr H. destruct p as [|a p'] eqn:E.
+  - apply resolve_nil in H. exact H.
+  - rewrite <- E in *. eapply resolve_real_dir; [exact Hr|subst; discriminate|exact H].
+Qed.
+
+(** ---------- more facts on chains ---------- *)
+Lemma real_from_app : forall f a b cur, real_from f cur (a ++ b) -> real_from f cur a /\ real_from f (cur ++ a) b.
+Proof.
+  intros f a. induction a as [|c a IH]; intros b cur H.
+  - cbn [app] in *. rewrite app_nil_r. split; [|exact H]. cbn [real_from]. split; [|exact I].
+    eapply real_from_dir. exact H.
+  - cbn [app real_from] in H. destruct H as [Hd [Hn H]]. apply IH in H. destruct H as [H1 H2].
+    split; [cbn [real_from]; auto|]. rewrite <- app_assoc in H2. exact H2.
+Qed.
+
+Lemma prefix_real_dir : forall f p q, real f p -> under q p = true -> is_dir (get f q) = true.
+Proof.
+  intros f p q Hr Hu. apply under_spec in Hu. destruct Hu as [s Hs]. subst p.
+  unfold real in Hr. apply real_from_app in Hr. destruct Hr as [_ H]. cbn [app] in H.
+  eapply real_from_dir. exact H.
+Qed.
+
+Lemma prefix_real : forall f p q, real f p -> under q p = true -> real f q.
+Proof.
+  intros f p q Hr Hu. apply under_spec in Hu. destruct Hu as [s Hs]. subst p.
+  unfold real in *. apply real_from_app in Hr. tauto.
+Qed.
+
+Lemma get_In : forall f p i, get f p = Some i -> exists q, path_eqb p q = true /\ In (q, i) f.
+Proof.
+  induction f as [|[r j] f IH]; intros p i H; [discriminate|]. cbn [get] in H.
+  destruct (path_eqb p r) eqn:E.
+  - inversion H; subst. exists r. split; [exact E|left; reflexivity].
+  - destruct (IH _ _ H) as (q & Hq & Hin). exists q. split; [exact Hq|right; exact Hin].
+Qed.
+
+Lemma has_children_intro : forall f q c, get f (q ++ [c]) <> None -> has_children f q = true.
+Proof.
+  intros f q c H. destruct (get f (q ++ [c])) as [i|] eqn:G; [|contradiction].
+  destruct (get_In _ _ _ G) as (r & Hr & Hin). apply path_eqb_eq in Hr. subst r.
+  unfold has_children. apply existsb_exists. exists (q ++ [c], i). split; [exact Hin|].
+  cbn [fst]. rewrite parent_snoc, path_eqb_refl. destruct q; reflexivity.
+Qed.
+
+Lemma under_longer : forall (q p : path), (List.length p < List.length q)%nat -> under q p = false.
+Proof.
+  intros q p H. destruct (under q p) eqn:E; [|reflexivity]. apply under_spec in E. destruct E as [s Hs].
+  subst p. rewrite app_length in H. lia.
+Qed.
+
+(** ---------- the invariant of the extraction loop ---------- *)
+Section Confine.
+  Variable t : path.
+  Hypothesis t_ne : t <> [].
+  Variable f0 : fs.
+
+  (** a deferred path: below the target, reached through real directories, and
+      (where [ex] says so) present *)
+  Definition dpath_ok (f : fs) (ex : path -> Prop) (d : deferred) : Prop :=
+    exists p c, d_path d = p ++ [c] /\ under t (p ++ [c]) = true /\ normal c /\ real f p /\
+                (ex (p ++ [c]) -> get f (p ++ [c]) <> None).
+  Definition inv (ex : path -> Prop) (f : fs) (rds : list deferred) : Prop :=
+    agree t f0 f /\ real f t /\ Forall (dpath_ok f ex) rds.
+
+  Definition always (_ : path) : Prop := True.
+  Definition never (_ : path) : Prop := False.
+
+  Lemma inv_weaken : forall (ex ex' : path -> Prop) f rds,
+    (forall x, ex' x -> ex x) -> inv ex f rds -> inv ex' f rds.
+  Proof.
+    intros ex ex' f rds Himp (A & R & D). split; [exact A|]. split; [exact R|].
+    eapply Forall_impl; [|exact D]. intros d (p & c & E & U & N & Rp & X).
+    exists p, c. split; [exact E|]. split; [exact U|]. split; [exact N|]. split; [exact Rp|].
+    intro Hx. apply X. apply Himp. exact Hx.
+  Qed.
+
+  Lemma inv_meta : forall ex f rds q g, inv ex f rds -> under t q = true -> meta_only q f g -> inv ex g rds.
+  Proof.
+    intros ex f rds q g (A & R & D) Hq Hm. split; [|split].
+    - eapply agree_trans; [exact A|]. eapply meta_agree; eassumption.
+    - eapply real_from_meta; eassumption.
+    - eapply Forall_impl; [|exact D]. intros d (p & c & E & U & N & Rp & X).
+      exists p, c. split; [exact E|]. split; [exact U|]. split; [exact N|]. split.
+      + eapply real_from_meta; eassumption.
+      + intro Hx. eapply exists_meta; [exact Hm|]. apply X. exact Hx.
+  Qed.
+
+  (** UpdateMetaUnix on a path below real directories that is not a symbolic link
+      changes the metadata of exactly that object, error or not *)
+  Lemma update_meta_ok : forall f p c mode mt, real f p -> normal c ->
+    (forall i tg, get f (p ++ [c]) = Some i -> i_kind i <> KLink tg) ->
+    meta_only (p ++ [c]) f (fst (update_meta f (p ++ [c]) mode mt)).
+  Proof.
+    intros f p c mode mt Hr Hn Hl. unfold update_meta.
+    assert (H1 : forall f1, (match mt with Some tm => utimens f (p ++ [c]) tm | None => Ok f end) = Ok f1 ->
+                            meta_only (p ++ [c]) f f1).
+    { intros f1 E. destruct mt as [tm|]; [|inversion E; apply meta_only_refl].
+      apply utimens_changes in E. destruct E as (q & Rq & Hm & _).
+      apply res_nofollow_lex in Rq; [|assumption|assumption]. subst q. exact Hm. }
+    destruct (match mt with Some tm => utimens f (p ++ [c]) tm | None => Ok f end) as [f1|e] eqn:E1;
+      [|apply meta_only_refl].
+    specialize (H1 f1 eq_refl). destruct (chmod_bits mode =? 0); [exact H1|].
+    destruct (chmod f1 (p ++ [c]) (chmod_bits mode)) as [f2|e] eqn:E2; cbn [fst]; [|exact H1].
+    apply chmod_changes in E2. destruct E2 as (q & Rq & Hm).
+    apply res_follow_lex in Rq.
+    - subst q. eapply meta_only_trans; eassumption.
+    - eapply real_from_meta; eassumption.
+    - exact Hn.
+    - intros i tg Hi Hk. destruct H1 as [_ H1]. rewrite Hi in H1.
+      destruct (get f (p ++ [c])) as [j|] eqn:Gj; [|contradiction].
+      apply (Hl j tg eq_refl). rewrite H1. exact Hk.
+  Qed.
+
+  Lemma apply_deferred_ok : forall f ex d, dpath_ok f ex d ->
+    meta_only (d_path d) f (fst (apply_deferred false f d)).
+  Proof.
+    intros f ex d (p & c & E & U & N & Rp & X). unfold apply_deferred. rewrite E.
+    unfold lstat. destruct (res_nofollow f (p ++ [c])) as [q|e] eqn:Rq; [|apply meta_only_refl].
+    apply res_nofollow_lex in Rq; [|assumption|assumption]. subst q.
+    destruct (get f (p ++ [c])) as [i|] eqn:G; [|apply meta_only_refl].
+    destruct (i_kind i) eqn:K; try apply meta_only_refl.
+    apply update_meta_ok; try assumption.
+    intros j tg Hj Hk. rewrite G in Hj. inversion Hj; subst. congruence.
+  Qed.
+
+  Lemma dpath_under : forall f ex d, dpath_ok f ex d -> under t (d_path d) = true.
+  Proof. intros f ex d (p & c & E & U & _). rewrite E. exact U. Qed.
+
+  (** doUpdates keeps everything outside the target as it was *)
+  Lemma do_updates_ok : forall rds ex f, inv ex f rds -> inv ex (do_updates_rev false f rds) [].
+  Proof.
+    induction rds as [|d rds IH]; intros ex f Hi.
+    - cbn. destruct Hi as (A & R & _). split; [exact A|]. split; [exact R|constructor].
+    - cbn [do_updates_rev]. pose proof Hi as (A & R & D). inversion D as [|? ? Hd Hds]; subst.
+      pose proof (apply_deferred_ok f ex d Hd) as Hm.
+      pose proof (inv_meta ex f (d :: rds) _ _ Hi (dpath_under _ _ _ Hd) Hm) as Hi'.
+      destruct (apply_deferred false f d) as [f' er]. cbn [fst] in *.
+      destruct er.
+      + destruct Hi' as (A' & R' & _). split; [exact A'|]. split; [exact R'|constructor].
+      + apply (IH ex). destruct Hi' as (A' & R' & D'). split; [exact A'|]. split; [exact R'|].
+        inversion D'; assumption.
+  Qed.
+End Confine.
+
+(** ---------- names ---------- *)
+Lemma prefix_b_spec : forall p s, prefix_b p s = true -> s = p ++ skipn (List.length p) s.
+Proof.
+  induction p as [|a p IH]; intros s H; [reflexivity|]. destruct s as [|b s]; [discriminate|].
+  cbn in H. apply andb_true_iff in H. destruct H as [H1 H2]. apply Z.eqb_eq in H1. subst b.
+  cbn [List.length skipn app]. f_equal. apply IH. exact H2.
+Qed.
+
+Lemma split_slash_suffix : forall a b, exists l, l <> [] /\ split_slash (a ++ 47 :: b) = l ++ split_slash b.
+Proof.
+  induction a as [|c a IH]; intro b.
+  - exists [[]]. split; [discriminate|]. cbn. reflexivity.
+  - destruct (IH b) as (l & Hl & E). cbn [app split_slash]. destruct (c =? 47).
+    + exists ([] :: l). split; [discriminate|]. rewrite E. reflexivity.
+    + rewrite E. destruct l as [|h l']; [contradiction|]. cbn [app].
+      exists ((c :: h) :: l'). split; [discriminate|]. reflexivity.
+Qed.
+
+Lemma split_slash_nonempty : forall s, split_slash s <> [].
+Proof.
+  induction s as [|c s IH]; cbn; [discriminate|]. destruct (c =? 47); [discriminate|].
+  destruct (split_slash s); discriminate.
+Qed.
+
+Lemma bad_elem_normal : forall e, bad_elem e = false -> normal e.
+Proof.
+  intros e H. unfold bad_elem in H. apply orb_false_iff in H. destruct H as [H H3].
+  apply orb_false_iff in H. destruct H as [H1 H2]. repeat split.
+  - intro E. subst. discriminate.
+  - intro E. subst. discriminate.
+  - intro E. subst. discriminate.
+Qed.
+
+Lemma rel_elems_normal : forall root n rel, valid_tar_path n = true -> relative_to root n = Some rel ->
+  Forall normal (split_slash rel).
+Proof.
+  intros root n rel Hv Hr. unfold relative_to in Hr.
+  destruct (prefix_b (root ++ [47]) n) eqn:P; [|discriminate]. inversion Hr; subst rel. clear Hr.
+  apply prefix_b_spec in P. unfold valid_tar_path in Hv.
+  apply andb_true_iff in Hv. destruct Hv as [_ Hv]. apply negb_true_iff in Hv.
+  set (rel := skipn (List.length (root ++ [47])) n) in *.
+  rewrite <- app_assoc in P. cbn [app] in P.
+  destruct (split_slash_suffix root rel) as (l & _ & E). rewrite <- P in E.
+  assert (HF : Forall normal (split_slash n)).
+  { apply Forall_forall. intros e He. apply bad_elem_normal.
+    destruct (bad_elem e) eqn:B; [|reflexivity]. exfalso.
+    assert (existsb bad_elem (split_slash n) = true) by (apply existsb_exists; exists e; auto). congruence. }
+  rewrite E in HF. apply Forall_app in HF. tauto.
+Qed.
+
+(** ---------- outputPath hands out lexical paths that are physical ---------- *)
+Lemma real_last_dir : forall f p, real f p -> is_dir (get f p) = true.
+Proof. intros f p H. eapply prefix_real_dir; [exact H|apply under_refl]. Qed.
+
+Lemma real_snoc : forall f p c, real f p -> normal c -> is_dir (get f (p ++ [c])) = true -> real f (p ++ [c]).
+Proof. intros f p c Hr Hn Hd. unfold real. apply real_from_snoc. cbn [app]. auto. Qed.
+
+Lemma output_path_ok : forall f elems cur L, real f cur -> Forall normal elems -> elems <> [] ->
+  output_path f cur elems = Some L ->
+  exists s c, L = (cur ++ s) ++ [c] /\ normal c /\ real f (cur ++ s).
+Proof.
+  intros f elems. induction elems as [|e rest IH]; intros cur L Hr HF Hne H; [contradiction|].
+  inversion HF as [|? ? Hn HF']; subst. cbn [output_path] in H.
+  destruct (negb (valid_component e)); [discriminate|].
+  destruct rest as [|e2 rest'].
+  - inversion H; subst. exists [], e. rewrite app_nil_r. auto.
+  - cbn iota in H. destruct (lstat f (cur ++ [e])) as [i|x] eqn:Ls; [|discriminate].
+    destruct (i_kind i) eqn:K; try discriminate.
+    unfold lstat in Ls. destruct (res_nofollow f (cur ++ [e])) as [q|x] eqn:Rq; [|discriminate].
+    apply res_nofollow_lex in Rq; [|assumption|assumption]. subst q.
+    destruct (get f (cur ++ [e])) as [j|] eqn:G; [|discriminate]. inversion Ls; subst j.
+    assert (Hr' : real f (cur ++ [e])).
+    { apply real_snoc; try assumption. rewrite G. destruct i as [k m mt]. cbn in K. subst k. reflexivity. }
+    destruct (IH (cur ++ [e]) L Hr' HF' ltac:(discriminate) H) as (s & c & EL & Hc & Hrs).
+    exists (e :: s), c. rewrite <- app_assoc in EL, Hrs. cbn [app] in EL, Hrs. auto.
+Qed.
+
+(** ---------- MkdirAll / extractDir ---------- *)
+Lemma stat_real : forall f p i, real f p -> stat f p = Ok i -> get f p = Some i.
+Proof.
+  intros f p i Hr H. unfold stat in H. destruct (res_follow f p) as [q|x] eqn:Rq; [|discriminate].
+  unfold res_follow in Rq. apply res_dir_lex in Rq; [|exact Hr]. subst q.
+  destruct (get f p); [inversion H; reflexivity|discriminate].
+Qed.
+
+Lemma mkdir_all_real : forall m f rp g, real f (rev rp) -> mkdir_all_rev f rp m = Ok g -> g = f.
+Proof.
+  intros m f rp. induction rp as [|c rp IH]; intros g Hr H.
+  - cbn [mkdir_all_rev] in H. destruct (stat f (rev [])) as [i|x]; [|discriminate].
+    destruct (i_kind i); inversion H; reflexivity.
+  - cbn [mkdir_all_rev] in H. destruct (stat f (rev (c :: rp))) as [i|x] eqn:St.
+    + destruct (i_kind i); inversion H; reflexivity.
+    + assert (Hrp : real f (rev rp)).
+      { eapply prefix_real; [exact Hr|]. cbn [rev]. apply under_app. }
+      destruct (mkdir_all_rev f rp m) as [f'|x'] eqn:Rec; [|discriminate].
+      apply IH in Rec; [|exact Hrp]. subst f'.
+      destruct (mkdir f (rev (c :: rp)) m) as [f''|x''] eqn:Mk.
+      * exfalso. apply mkdir_changes in Mk. destruct Mk as (q & Rq & _ & Gq & _).
+        unfold res_nofollow in Rq. apply res_dir_lex in Rq; [|exact Hr]. subst q.
+        pose proof (real_last_dir _ _ Hr) as Hd. rewrite Gq in Hd. discriminate.
+      * destruct (lstat f (rev (c :: rp))) as [[k mm mt]|]; [|discriminate].
+        destruct k; inversion H; reflexivity.
+Qed.
+
+Lemma lstat_lex : forall f p c i, real f p -> normal c -> lstat f (p ++ [c]) = Ok i -> get f (p ++ [c]) = Some i.
+Proof.
+  intros f p c i Hr Hn H. unfold lstat in H. destruct (res_nofollow f (p ++ [c])) as [q|x] eqn:Rq; [|discriminate].
+  apply res_nofollow_lex in Rq; [|assumption|assumption]. subst q.
+  destruct (get f (p ++ [c])); [inversion H; reflexivity|discriminate].
+Qed.
+
+Lemma under_snoc_false : forall (p : path) c, under (p ++ [c]) p = false.
+Proof. intros. apply under_longer. rewrite app_length. cbn. lia. Qed.
+
+Lemma extract_dir_ok : forall f p c g, real f p -> normal c -> extract_dir f (p ++ [c]) = Ok g ->
+  (g = f \/ (changes_at (p ++ [c]) f g /\ get f (p ++ [c]) = None)) /\
+  real g p /\ is_dir (get g (p ++ [c])) = true.
+Proof.
+  intros f p c g Hr Hn H. unfold extract_dir in H.
+  destruct (mkdir_all f (p ++ [c]) 493) as [f1|x] eqn:Mk; [|discriminate].
+  assert (Hcase : f1 = f \/ (changes_at (p ++ [c]) f f1 /\ get f (p ++ [c]) = None)).
+  { unfold mkdir_all in Mk. rewrite rev_app_distr in Mk. cbn [rev app] in Mk. cbn [mkdir_all_rev] in Mk.
+    replace (rev (c :: rev p)) with (p ++ [c]) in Mk by (cbn [rev]; rewrite rev_involutive; reflexivity).
+    destruct (stat f (p ++ [c])) as [i|x] eqn:St.
+    - destruct (i_kind i); inversion Mk; auto.
+    - destruct (mkdir_all_rev f (rev p) 493) as [f'|x'] eqn:Rec; [|discriminate].
+      apply mkdir_all_real in Rec; [|rewrite rev_involutive; exact Hr]. subst f'.
+      destruct (mkdir f (p ++ [c]) 493) as [f''|x''] eqn:Mk2.
+      + inversion Mk; subst f''. right. apply mkdir_changes in Mk2. destruct Mk2 as (q & Rq & Hc & Gq & _).
+        apply res_nofollow_lex in Rq; [|assumption|assumption]. subst q. auto.
+      + destruct (lstat f (p ++ [c])) as [[k mm mt]|]; [|discriminate]. destruct k; inversion Mk; auto. }
+  assert (Hr1 : real f1 p).
+  { destruct Hcase as [E|[Hc _]]; [subst; exact Hr|].
+    eapply real_from_changes; [exact Hc| |exact Hr]. cbn [app]. apply under_snoc_false. }
+  destruct (lstat f1 (p ++ [c])) as [i|x] eqn:Ls; [|discriminate].
+  apply lstat_lex in Ls; [|assumption|assumption].
+  destruct (i_kind i) eqn:K; try discriminate. inversion H; subst g.
+  split; [exact Hcase|]. split; [exact Hr1|]. rewrite Ls. destruct i as [k m mt]. cbn in K. subst k. reflexivity.
+Qed.
+
+Lemma remove_if_exists_ok : forall f p c g, real f p -> normal c -> remove_if_exists f (p ++ [c]) = Ok g ->
+  g = f \/ (changes_at (p ++ [c]) f g /\ get g (p ++ [c]) = None /\
+            (is_dir (get f (p ++ [c])) = true -> has_children f (p ++ [c]) = false)).
+Proof.
+  intros f p c g Hr Hn H. unfold remove_if_exists in H.
+  destruct (remove f (p ++ [c])) as [f1|x] eqn:Rm.
+  - inversion H; subst f1. right. apply remove_changes in Rm. destruct Rm as (q & Rq & Hc & Gq & Hch).
+    apply res_nofollow_lex in Rq; [|assumption|assumption]. subst q. auto.
+  - destruct x; inversion H; auto.
 Qed.
